@@ -833,11 +833,12 @@ def do_testreactors(spec, rec):
         mode = rng.choice(["small", "small", "none"])
         w["perturbation"] = mode
         perturb_heights(rng, r.core, mode)
-        # assemblies of the test reactor through the assembly-level workload
+        reactor_case(rec, rng, r, o.cs, w, sample=False, same_height_only=True)
+        # then assemblies of the test reactor through the assembly-level workload (afterwards: that workload leaves arrays of
+        # different lengths on blocks it did not touch, which would not be a valid state for convert())
         for a in rng.sample(list(r.core), min(4, len(r.core))):
             hs = [b.getHeight() for b in a]
             one_remesh_case(rec, rng, a, [b.getType() for b in a], hs, "%s-%d-%s" % (which, i, a.getName()), sample_ok=False)
-        reactor_case(rec, rng, r, o.cs, w, sample=False, same_height_only=True)
 
 
 def total_heights(core):
@@ -972,8 +973,8 @@ def scaled_again(S, D1, O, name, sf):
     sv = S["p"][name]
     for j in range(O.shape[0]):
         idx = [i for i in range(len(sv)) if O[j, i] > 0 and not is_none(sv[i])]
-        if not idx or any(O[j, i] <= 2 * TOLERANCES["overlap_eps_fraction"] * hs[i] for i in idx):
-            continue  # nothing set underneath, or a sub-EPS sliver involved: not used for the diagnosis
+        if not any(O[j, i] > 2 * TOLERANCES["overlap_eps_fraction"] * hs[i] for i in idx):
+            continue  # nothing set underneath beyond a sub-EPS sliver: not used for the diagnosis (slivers are far inside the 1e-7 tolerance)
         terms = [as_num(sv[i]) * (O[j, i] / hs[i]) for i in idx]
         exp = sum(terms[1:], terms[0]) / sf
         sc = sum(np.abs(t) for t in terms)
